@@ -161,52 +161,7 @@ func runC08(c *Ctx) {
 
 	// ---- R3 ----
 	r3 := c.Rule("R3", "pre-image restore: priority log removed only after the registry restore succeeded; Phase2Commit failure restores pre-images (or drops the priority log) before rollback", 6)
-	for _, key := range []string{kPriorityRB, kDoPriorityRBs} {
-		fx := w.Fn(key)
-		gx := w.G(fx)
-		c.Analysed(fx)
-		upd := gx.callNodes(kRegUpdNL)
-		if len(upd) != 1 {
-			c.Violated(r3, shortKey(key)+": restores through UpdateNoLocks", fx.Decl.Pos(), fmt.Sprintf("expected one UpdateNoLocks, found %d", len(upd)), nil)
-			continue
-		}
-		fail, _, ok := gx.ErrBranches(upd[0].n, upd[0].cs)
-		if !ok {
-			c.Violated(r3, shortKey(key)+": restore error tested", upd[0].cs.Call.Pos(), "error not tested", nil)
-			continue
-		}
-		r := gx.Reach(fail, isReturn, nil)
-		var offs []Offence
-		for _, x := range gx.Nodes {
-			if r.Seen[x.ID] && (calls(kPLogRemove)(x) || (x.Ret != nil && gx.ClassifyReturn(x) != RetNonNil) || x.RangeHead != nil) {
-				offs = append(offs, Offence{x, r.Path(x.ID)})
-			}
-		}
-		c.Offences(gx, offs, r3, shortKey(key)+": failed restore keeps the priority log and reports an error", upd[0].cs.Call.Pos(), "after a failed registry restore only error returns are reachable, not PriorityLog.Remove", "the priority log can be removed (or success reported) although the registry restore failed")
-		// the restored payload comes from the priority log
-		info := fx.Pkg.TypesInfo
-		okSrc := false
-		if len(upd[0].cs.Call.Args) == 3 {
-			if id, ok := ast.Unparen(upd[0].cs.Call.Args[2]).(*ast.Ident); ok {
-				v := info.Uses[id]
-				for _, ws := range w.writesOf(fx, v, false) {
-					if ws.Rhs != nil && (w.mentionsCall(fx, ws.Rhs, kPLogGet) || w.mentionsCall(fx, ws.Rhs, "sop.TransactionPriorityLog.GetBatch") || mentionsBatchValue(info, ws.Rhs)) {
-						okSrc = true
-					}
-				}
-			}
-		}
-		c.Check(okSrc, r3, shortKey(key)+": restores the logged handles", upd[0].cs.Call.Pos(), "UpdateNoLocks argument is the payload read from the priority log", "the handles written back are not the ones read from the priority log", nil)
-		// Remove is preceded by the restore
-		offs = gx.MustPrecede(calls(kRegUpdNL), func(n *GNode) bool {
-			if !calls(kPLogRemove)(n) {
-				return false
-			}
-			// priorityRollback's `if uhAndrh == nil { return Remove }` (nothing logged) is the accepted idiom
-			return !(n.Ret != nil && key == kPriorityRB && dominatedByNilPayload(gx, n))
-		})
-		c.Offences(gx, offs, r3, shortKey(key)+": priority log removed only after the restore", upd[0].cs.Call.Pos(), "PriorityLog.Remove is dominated by the registry restore (empty payload excepted)", "priority log removable without restoring its pre-images")
-	}
+	rulePriorityRestore(c, r3)
 	{
 		fp := w.Fn(kTxP2)
 		gp := w.G(fp)
@@ -253,6 +208,58 @@ func runC08(c *Ctx) {
 		c.Analysed(fpl)
 		offs = gpl.MustPrecede(w.callsReaching("fs.FileIO.WriteFile", "fs.fileIO.WriteFile", "os.WriteFile", "fs.defaultFileIO.WriteFile"), func(n *GNode) bool { return n.Ret != nil && gpl.ClassifyReturn(n) == RetNil })
 		c.Offences(gpl, offs, r4, "fs.priorityLog.Add: nil only after the file write", fpl.Decl.Pos(), "nil return dominated by a WriteFile call", "priorityLog.Add can report success without writing the file")
+	}
+}
+
+// rulePriorityRestore (first half of C08.R3, shared by C09.R3): the priority log is removed only after
+// the registry restore of its pre-images succeeded.
+func rulePriorityRestore(c *Ctx, r3 string) {
+	w := c.W
+	for _, key := range []string{kPriorityRB, kDoPriorityRBs} {
+		fx := w.Fn(key)
+		gx := w.G(fx)
+		c.Analysed(fx)
+		upd := gx.callNodes(kRegUpdNL)
+		if len(upd) != 1 {
+			c.Violated(r3, shortKey(key)+": restores through UpdateNoLocks", fx.Decl.Pos(), fmt.Sprintf("expected one UpdateNoLocks, found %d", len(upd)), nil)
+			continue
+		}
+		fail, _, ok := gx.ErrBranches(upd[0].n, upd[0].cs)
+		if !ok {
+			c.Violated(r3, shortKey(key)+": restore error tested", upd[0].cs.Call.Pos(), "error not tested", nil)
+			continue
+		}
+		r := gx.Reach(fail, isReturn, nil)
+		var offs []Offence
+		for _, x := range gx.Nodes {
+			if r.Seen[x.ID] && (calls(kPLogRemove)(x) || (x.Ret != nil && gx.ClassifyReturn(x) != RetNonNil) || x.RangeHead != nil) {
+				offs = append(offs, Offence{x, r.Path(x.ID)})
+			}
+		}
+		c.Offences(gx, offs, r3, shortKey(key)+": failed restore keeps the priority log and reports an error", upd[0].cs.Call.Pos(), "after a failed registry restore only error returns are reachable, not PriorityLog.Remove", "the priority log can be removed (or success reported) although the registry restore failed")
+		// the restored payload comes from the priority log
+		info := fx.Pkg.TypesInfo
+		okSrc := false
+		if len(upd[0].cs.Call.Args) == 3 {
+			if id, ok := ast.Unparen(upd[0].cs.Call.Args[2]).(*ast.Ident); ok {
+				v := info.Uses[id]
+				for _, ws := range w.writesOf(fx, v, false) {
+					if ws.Rhs != nil && (w.mentionsCall(fx, ws.Rhs, kPLogGet) || w.mentionsCall(fx, ws.Rhs, "sop.TransactionPriorityLog.GetBatch") || mentionsBatchValue(info, ws.Rhs)) {
+						okSrc = true
+					}
+				}
+			}
+		}
+		c.Check(okSrc, r3, shortKey(key)+": restores the logged handles", upd[0].cs.Call.Pos(), "UpdateNoLocks argument is the payload read from the priority log", "the handles written back are not the ones read from the priority log", nil)
+		// Remove is preceded by the restore
+		offs = gx.MustPrecede(calls(kRegUpdNL), func(n *GNode) bool {
+			if !calls(kPLogRemove)(n) {
+				return false
+			}
+			// priorityRollback's `if uhAndrh == nil { return Remove }` (nothing logged) is the accepted idiom
+			return !(n.Ret != nil && key == kPriorityRB && dominatedByNilPayload(gx, n))
+		})
+		c.Offences(gx, offs, r3, shortKey(key)+": priority log removed only after the restore", upd[0].cs.Call.Pos(), "PriorityLog.Remove is dominated by the registry restore (empty payload excepted)", "priority log removable without restoring its pre-images")
 	}
 }
 
